@@ -5,6 +5,7 @@ go 1.23.0
 require github.com/tinode/chat v0.0.0
 
 require (
+	github.com/rivo/uniseg v0.4.7 // indirect
 	github.com/tinode/snowflake v1.0.0 // indirect
 	golang.org/x/crypto v0.37.0 // indirect
 )
